@@ -55,6 +55,7 @@ type Decoder struct {
 	typList    []string
 	refList    []reflect.Value
 	clsDefList []ClassDef
+	skipDepth  int // > 0 while the value of an unknown field is read only to be dropped
 }
 
 //NewDecoder new
@@ -77,6 +78,7 @@ func (d *Decoder) Reset(r ByteRuneReader) {
 	d.typList = make([]string, 0, 11)
 	d.clsDefList = make([]ClassDef, 0, 11)
 	d.refList = make([]reflect.Value, 0, 11)
+	d.skipDepth = 0
 }
 
 //RegisterType register key/value type
